@@ -229,7 +229,9 @@ def run(ctx):
         for i, (lab, st, _) in enumerate(O.mutations(o)):
             mspecs.append({"o": o, "i": i, "lab": lab})
     ctx.enumerate(mspecs, fn="check_mut", axis="single-field mutations")
-    names = [n for n in cat.names() if (tier == "thorough" or cat.category(n) != "template") and cat.instances(n, "one")]
+    wrap_bases = ("PauliX", "S", "RX", "CNOT", "CRX", "SWAP", "Toffoli", "QubitUnitary", "MultiControlledX", "PauliRot", "ChangeOpBasis", "Prod")
+    names = [n for n in cat.names() if cat.instances(n, "one") and (
+        tier == "thorough" or cat.category(n) not in ("template", "wrapper") or (cat.category(n) == "wrapper" and n[n.index("(") + 1:-1] in wrap_bases))]
     if only:
         names = [n for n in names if any(t in n for t in only)]
     ctx.enumerate([{"a": a, "b": b} for a, b in itertools.combinations(names, 2)], fn="check_cross", axis="cross pairs (one instance per name)")
